@@ -190,7 +190,26 @@ DSFN = ["compileVariableTTF", "compileVariableCFF2", "compileInterpolatableTTFsF
 # static compile of the default master of a designspace (after the variable build has run on the same objects)
 DSFN_INFO = ["compileVariableTTF", "compileVariableCFF2", "compileTTF-master0"]
 
+def colrv1_spec():
+    """COLRv1 colour glyphs given explicitly through the colorLayers lib key, whose dict lists 'b'
+    before 'a': in memory the dict keeps that order, a lib.plist written to disk has sorted keys."""
+    G = {".notdef": {"width": 500}, "space": {"width": 250, "unicodes": [0x20]}}
+    for i, n in enumerate(("a", "b", "a.c1", "a.c2", "b.c1", "b.c2")):
+        G[n] = {"width": 600, "contours": [box(50 + 10 * i, 0, 400 + 10 * i, 300 + 20 * i)]}
+        if len(n) == 1:
+            G[n]["unicodes"] = [ord(n)]
+
+    def solid(g, pi):
+        return {"Format": 10, "Glyph": g, "Paint": {"Format": 2, "PaletteIndex": pi, "Alpha": 1.0}}
+    layers = {}
+    layers["b"] = {"Format": 1, "Layers": [solid("b.c1", 1), solid("b.c2", 0)]}
+    layers["a"] = {"Format": 1, "Layers": [solid("a.c1", 0), solid("a.c2", 1)]}
+    return {"glyphs": G, "order": list(G),
+            "lib": {F + "colorPalettes": [[(1.0, 0.3, 0.1, 1.0), (0.0, 0.4, 0.8, 1.0)]], F + "colorLayers": layers}}
+
+
 INPUTS = {
+    "colrv1": {"kind": "static", "specs": lambda perm=None: [colrv1_spec()]},
     "rich": {"kind": "static", "specs": lambda perm=None: [rich_spec(0, perm)]},
     "rich+fea": {"kind": "static", "specs": lambda perm=None: [dict(rich_spec(0, perm), features=USER_FEA)]},
     "propagate": {"kind": "static", "specs": lambda perm=None: [_propagate_spec(perm)]},
